@@ -122,7 +122,8 @@ func (g *Engine) Start() error {
 
 	if g.AsyncReadInPoller {
 		if g.IOExecute == nil {
-			g.ioTaskPool = taskpool.NewIO(0, 0, 0)
+			// the tasks need real reading buffers and goroutines to run on.
+			g.ioTaskPool = taskpool.NewIO(runtime.NumCPU()*8, 1024, g.ReadBufferSize)
 			g.IOExecute = g.ioTaskPool.Go
 		}
 	}
